@@ -41,6 +41,12 @@ def case(draw):
     desc = draw(e2e.structure(max_chains=3, nmax=5, wild=wild, contact=True,
                               hyd=draw(st.sampled_from(["none", "none", None])), variants=0.3,
                               missing=draw(st.booleans())))  # fmt: skip
+    if draw(st.integers(0, 3)) == 0:
+        # an over-long peptide link (1.5-3 A): above PEPTIDE_DIST (1.7 A) it is a chain break and the
+        # neighbour must not be used as a fitting reference
+        ch0 = desc["chains"][0]
+        if len(ch0["seq"]) >= 2:
+            ch0["stretch"] = [[draw(st.integers(0, 5)), draw(st.sampled_from([1.5, 1.9, 2.2, 2.4, 2.9]))]]
     return dict(part="e2e", desc=desc, ff=draw(st.sampled_from(strat.FFS)), opts=list(mode), wild=wild)
 
 
@@ -160,6 +166,13 @@ def check(case):
                         pep = topo.PATCH["PEPTIDE"]["atoms"]["N+1"]
                         ldist = max(ldist, abs(geom.dist(names["C"], nxt) - geom.dist(tmpl["C"], pep)),
                                     0.02 * abs(geom.angle(names["CA"], names["C"], nxt) - geom.angle(tmpl["CA"], tmpl["C"], pep)) if "CA" in names else 0.0)  # fmt: skip
+                if x == "H" and p == "N":
+                    # the amide hydrogen is fitted onto (N, CA, C of the previous residue) when they are linked
+                    prv = A.inp.get(("chain", ci, i - 1), {}).get("C")
+                    if prv is not None and "N" in names and geom.dist(prv, names["N"]) < 1.75:
+                        pepc = topo.PATCH["PEPTIDE"]["atoms"]["C-1"]
+                        ldist = max(ldist, abs(geom.dist(prv, names["N"]) - geom.dist(pepc, tmpl["N"])))
+                link_distortion = ldist if (x == "H" and p == "N") or (x == "O" and p == "C") else 0.0
                 if abs(d - d0) > tol_len + 0.6 * ldist:
                     kind = "heavy" if topo.heavy(x) else "hydrogen"
                     res.bad(f"C05:bond-length:{kind}{suffix}",
@@ -175,6 +188,7 @@ def check(case):
                             dmax = max(dmax, abs(geom.angle(names[qs[ia]], names[p], names[qs[ib]])
                                                  - geom.angle(tmpl[qs[ia]], tmpl[p], tmpl[qs[ib]])))  # fmt: skip
                     tol = tol + 1.5 * dmax
+                tol = tol + 35.0 * link_distortion  # deg per A of peptide-link distortion (3-point fit)
                 for q in bonds.get(p, []):
                     if q == x or q not in out or q not in tmpl:
                         continue
